@@ -17,6 +17,7 @@ def run(ctx: Ctx) -> list[Ob]:
     obs += [o for o in r11.r11c(ctx) if ":finite" in o.instance]
     obs += r11.r11g(ctx)
     obs += r11.r11h(ctx)
+    obs += r11.r11j(ctx)
     return obs
 
 
@@ -31,7 +32,7 @@ SPEC = PropSpec(
         "tensor to keep its own requires_grad); R11e -- the complex log-space semiring takes logarithms with csafelog in its stable "
         "reduce and in the morphism from the linear semiring (the plain complex log has a nan gradient at an exactly-zero unit: "
         "'gradients are finite wherever the function value is non-zero'); R11c -- the log-space reduce makes its shift finite."
-        " R11g: a hand-written backward (ComplexSafeLog) repairs non-finite values only -- no ordering comparison (abs(x) < eps) masks the gradient on an open set. R11h: compile_tensor_parameter passes requires_grad = p.learnable, not restricted through dtype.is_floating_point alone (False for complex dtypes: learnable complex parameters would be compiled frozen)."
+        " R11j: no evaluation method of a torch-side module or semiring (forward, evaluate, apply_reduce, einsum, ..; not reset_parameters, not sample) switches gradient tracking off (no_grad / set_grad_enabled / inference_mode) or detaches anything but the shift of a stable reduce. R11g: a hand-written backward (ComplexSafeLog) repairs non-finite values only -- no ordering comparison (abs(x) < eps) masks the gradient on an open set. R11h: compile_tensor_parameter passes requires_grad = p.learnable, not restricted through dtype.is_floating_point alone (False for complex dtypes: learnable complex parameters would be compiled frozen)."
     ),
     not_decided=(
         "that gradients equal the true derivatives (numerical: finite differences, autograd semantics); gradients with respect to "
@@ -39,5 +40,5 @@ SPEC = PropSpec(
         "sound syntactic rule exists)."
     ),
     run=run,
-    floors={"R1c": 1, "R3d": 3, "R11e": 2, "R11c": 2},
+    floors={"R11j": 50, "R1c": 1, "R3d": 3, "R11e": 2, "R11c": 2},
 )
